@@ -4,6 +4,8 @@
 package c04
 
 import (
+	"io"
+
 	"github.com/cloudflare/circl/sign"
 	"github.com/cloudflare/circl/sign/dilithium/mode2"
 	"github.com/cloudflare/circl/sign/dilithium/mode3"
@@ -36,6 +38,18 @@ func init() {
 		},
 		signInto: func(sk interface{}, msg, ctx, dst []byte) error {
 			return mldsa44.SignTo(sk.(*mldsa44.PrivateKey), msg, ctx, false, dst)
+		},
+		generate: func(r io.Reader) ([]byte, []byte, error) {
+			pk, sk, err := mldsa44.GenerateKey(r)
+			if err != nil {
+				return nil, nil, err
+			}
+			return pk.Bytes(), sk.Bytes(), nil
+		},
+		signRand: func(sk interface{}, msg, ctx []byte) ([]byte, error) {
+			sig := make([]byte, mldsa44.SignatureSize)
+			err := mldsa44.SignTo(sk.(*mldsa44.PrivateKey), msg, ctx, true, sig)
+			return sig, err
 		},
 		verify: func(pk interface{}, msg, ctx, sig []byte) bool {
 			return mldsa44.Verify(pk.(*mldsa44.PublicKey), msg, ctx, sig)
@@ -80,6 +94,18 @@ func init() {
 		signInto: func(sk interface{}, msg, ctx, dst []byte) error {
 			return mldsa65.SignTo(sk.(*mldsa65.PrivateKey), msg, ctx, false, dst)
 		},
+		generate: func(r io.Reader) ([]byte, []byte, error) {
+			pk, sk, err := mldsa65.GenerateKey(r)
+			if err != nil {
+				return nil, nil, err
+			}
+			return pk.Bytes(), sk.Bytes(), nil
+		},
+		signRand: func(sk interface{}, msg, ctx []byte) ([]byte, error) {
+			sig := make([]byte, mldsa65.SignatureSize)
+			err := mldsa65.SignTo(sk.(*mldsa65.PrivateKey), msg, ctx, true, sig)
+			return sig, err
+		},
 		verify: func(pk interface{}, msg, ctx, sig []byte) bool {
 			return mldsa65.Verify(pk.(*mldsa65.PublicKey), msg, ctx, sig)
 		},
@@ -122,6 +148,18 @@ func init() {
 		},
 		signInto: func(sk interface{}, msg, ctx, dst []byte) error {
 			return mldsa87.SignTo(sk.(*mldsa87.PrivateKey), msg, ctx, false, dst)
+		},
+		generate: func(r io.Reader) ([]byte, []byte, error) {
+			pk, sk, err := mldsa87.GenerateKey(r)
+			if err != nil {
+				return nil, nil, err
+			}
+			return pk.Bytes(), sk.Bytes(), nil
+		},
+		signRand: func(sk interface{}, msg, ctx []byte) ([]byte, error) {
+			sig := make([]byte, mldsa87.SignatureSize)
+			err := mldsa87.SignTo(sk.(*mldsa87.PrivateKey), msg, ctx, true, sig)
+			return sig, err
 		},
 		verify: func(pk interface{}, msg, ctx, sig []byte) bool {
 			return mldsa87.Verify(pk.(*mldsa87.PublicKey), msg, ctx, sig)
@@ -167,6 +205,13 @@ func init() {
 			mode2.SignTo(sk.(*mode2.PrivateKey), msg, dst)
 			return nil
 		},
+		generate: func(r io.Reader) ([]byte, []byte, error) {
+			pk, sk, err := mode2.GenerateKey(r)
+			if err != nil {
+				return nil, nil, err
+			}
+			return pk.Bytes(), sk.Bytes(), nil
+		},
 		verify: func(pk interface{}, msg, ctx, sig []byte) bool {
 			return mode2.Verify(pk.(*mode2.PublicKey), msg, sig)
 		},
@@ -211,6 +256,13 @@ func init() {
 			mode3.SignTo(sk.(*mode3.PrivateKey), msg, dst)
 			return nil
 		},
+		generate: func(r io.Reader) ([]byte, []byte, error) {
+			pk, sk, err := mode3.GenerateKey(r)
+			if err != nil {
+				return nil, nil, err
+			}
+			return pk.Bytes(), sk.Bytes(), nil
+		},
 		verify: func(pk interface{}, msg, ctx, sig []byte) bool {
 			return mode3.Verify(pk.(*mode3.PublicKey), msg, sig)
 		},
@@ -254,6 +306,13 @@ func init() {
 		signInto: func(sk interface{}, msg, ctx, dst []byte) error {
 			mode5.SignTo(sk.(*mode5.PrivateKey), msg, dst)
 			return nil
+		},
+		generate: func(r io.Reader) ([]byte, []byte, error) {
+			pk, sk, err := mode5.GenerateKey(r)
+			if err != nil {
+				return nil, nil, err
+			}
+			return pk.Bytes(), sk.Bytes(), nil
 		},
 		verify: func(pk interface{}, msg, ctx, sig []byte) bool {
 			return mode5.Verify(pk.(*mode5.PublicKey), msg, sig)
